@@ -18,40 +18,40 @@ import (
 
 // StreamOpts selects the features a generated stream may use.
 type StreamOpts struct {
-	Comments     bool
-	Padding      bool
-	CustomText   bool
-	CustomBinary bool
-	RemoteRef    bool
-	Markers      bool
-	Records      bool
-	Media        bool
-	Chunked      bool // emit some arrays in chunked (begin/chunk/data) form
-	NoNaNForms   bool // only OnNan for NaN (no float/decimal NaN forms that rules rewrite)
-	NoNilBig     bool // never nil big numbers
-	NoBoolEvent  bool // only OnTrue/OnFalse
-	NoEdgeNode   bool
+	Comments      bool
+	Padding       bool
+	CustomText    bool
+	CustomBinary  bool
+	RemoteRef     bool
+	Markers       bool
+	Records       bool
+	Media         bool
+	Chunked       bool // emit some arrays in chunked (begin/chunk/data) form
+	NoNaNForms    bool // only OnNan for NaN (no float/decimal NaN forms that rules rewrite)
+	NoNilBig      bool // never nil big numbers
+	NoBoolEvent   bool // only OnTrue/OnFalse
+	NoEdgeNode    bool
 	NoTypedArrays bool
-	NoBigFloat   bool
-	NoNegZero    bool
-	SafeStrings  bool // strings limited to printable text without comment terminators
-	MaxDepth     int
-	Size         int // approximate number of value events
-	MaxArrayLen  int // max elements/bytes in arrays
-	MaxComments  int
+	NoBigFloat    bool
+	NoNegZero     bool
+	SafeStrings   bool // strings limited to printable text without comment terminators
+	MaxDepth      int
+	Size          int // approximate number of value events
+	MaxArrayLen   int // max elements/bytes in arrays
+	MaxComments   int
 }
 
 type streamGen struct {
-	r        *rand.Rand
-	o        StreamOpts
-	out      []ev.Event
-	budget   int
-	comments int
-	markers  []markerInfo // defined so far
-	nextID   int
-	recTypes []recType
+	r          *rand.Rand
+	o          StreamOpts
+	out        []ev.Event
+	budget     int
+	comments   int
+	markers    []markerInfo // defined so far
+	nextID     int
+	recTypes   []recType
 	pendingFwd []string // forward-referenced ids that still need a definition (any type)
-	usedIDs  map[string]bool
+	usedIDs    map[string]bool
 }
 
 type markerInfo struct {
@@ -232,7 +232,7 @@ func (g *streamGen) value(depth int, keyableOnly bool, allowNull bool) {
 		// most places but not as edge source/destination), keep it non-null.
 		save := len(g.out)
 		mk, rr := g.o.Markers, g.o.RemoteRef
-		g.o.Markers = false // no marker directly on a marker/ref
+		g.o.Markers = false   // no marker directly on a marker/ref
 		g.o.RemoteRef = false // the validator does not allow a remote reference as a marked object (don't-care in the property)
 		g.valueNoMarker(depth, canNest, false)
 		g.o.Markers, g.o.RemoteRef = mk, rr
@@ -488,7 +488,7 @@ func Float64Value(r *rand.Rand) float64 {
 		return float64(math.Float32frombits(b))
 	case 3:
 		// subnormal float64
-		return math.Float64frombits(r.Uint64() & (1<<52 - 1) | uint64(r.Intn(2))<<63)
+		return math.Float64frombits(r.Uint64()&(1<<52-1) | uint64(r.Intn(2))<<63)
 	case 4:
 		return []float64{math.MaxFloat64, -math.MaxFloat64, math.SmallestNonzeroFloat64, math.MaxFloat32, math.SmallestNonzeroFloat32,
 			0x1p-1022, 0x1.fffffffffffffp-1023, 0x1p-126, 0x1p-149, 0x1.fffffep127, 0x1.fep127, 0x1p-133}[r.Intn(12)]
